@@ -285,6 +285,9 @@ def gen_files(rng, tier):
         effects = [[f"v{j}", rng.choice([0.1, 0.5, -0.25, 1.0, 0.3])] for j in idx]
         if h2mode == "none_bigbeta":
             effects[0][1] = rng.choice([1.0, -1.0, 1.5])
+        if t % 6 == 1:
+            # an effect list that names a variable twice (two lines of the .snplist): both terms belong to the sum
+            effects.insert(rng.randrange(1, len(effects) + 1), [effects[0][0], rng.choice([0.4, -0.2, 0.25])])
         hap_effects = None
         if rng.random() < 0.4:
             # the causal variables are haplotypes of a .hap file (1-3 variants each, REF or ALT alleles, overlapping):
